@@ -78,13 +78,24 @@ type translated struct {
 	raw    translate.Result
 }
 
+// translateWithPlan translates under a caller-made plan. The collect-id membership lowering is derived from the query,
+// not from the plan: it is switched off here (hook H1b) so that a plan without decisions really is "all optimisation
+// disabled"; translateCollectIDsOnly is the translation with that lowering alone.
 func translateWithPlan(plan optimize.Plan, params map[string]any, mapper pgsql.KindMapper) (tr translated, err error) {
+	return translateWithPlanOptions(plan, params, mapper, translate.VerifTranslateOptions{NoCollectIDMembership: true})
+}
+
+func translateCollectIDsOnly(q *cypher.RegularQuery, params map[string]any, mapper pgsql.KindMapper) (translated, error) {
+	return translateWithPlanOptions(noOptimisationPlan(q), params, mapper, translate.VerifTranslateOptions{})
+}
+
+func translateWithPlanOptions(plan optimize.Plan, params map[string]any, mapper pgsql.KindMapper, options translate.VerifTranslateOptions) (tr translated, err error) {
 	defer func() {
 		if p := recover(); p != nil {
 			err = &xlate.Panic{Value: p}
 		}
 	}()
-	raw, err := translate.TranslateWithPlan(context.Background(), plan, mapper, params, 0)
+	raw, err := translate.TranslateWithPlanOptions(context.Background(), plan, mapper, params, 0, options)
 	if err != nil {
 		return translated{}, err
 	}
@@ -316,6 +327,16 @@ func oracle(c qcase.Case) (evid.Info, error) {
 	if msg := qcase.Compare(gotUn, det, gotOpt); msg != "" {
 		return info, fmt.Errorf("optimised and unoptimised SQL for %q return different rows on this graph (%s; 'reference' below = unoptimised)\n%s\noptimised (lowerings %v):   %s\nunoptimised: %s\nparams: %v",
 			c.Query, det, msg, info.Classes, opt.sql, unopt.sql, opt.params)
+	}
+
+	// (c0) the lowering the plan does not carry, alone (both tiers: it is one more translation)
+	if tr, err := translateCollectIDsOnly(model, c.Params, mapper); err == nil && strings.TrimSpace(tr.sql) != strings.TrimSpace(unopt.sql) {
+		if got, skip := run(db, tr); skip == "" {
+			info.Classes = append(info.Classes, "ablation:CollectIDMembership")
+			if msg := qcase.Compare(gotUn, det, got); msg != "" {
+				return info, fmt.Errorf("with only the collect-id membership lowering enabled the SQL for %q returns different rows than with optimisation disabled (%s)\n%s\nSQL: %s", c.Query, det, msg, tr.sql)
+			}
+		}
 	}
 
 	// (c) per-lowering ablation (thorough)
